@@ -123,12 +123,13 @@ func NewCA(o CAOpts) *CA {
 }
 
 type LeafOpts struct {
-	CN       string
-	Serial   *big.Int
-	CDP      []string
-	OCSP     []string
-	KeyUsage x509.KeyUsage
-	Key      crypto.Signer
+	CN         string
+	Serial     *big.Int
+	CDP        []string
+	OCSP       []string
+	KeyUsage   x509.KeyUsage
+	Key        crypto.Signer
+	NoKeyUsage bool // no keyUsage extension at all
 }
 
 type Leaf struct {
@@ -147,6 +148,9 @@ func (ca *CA) Leaf(o LeafOpts) *Leaf {
 	ku := o.KeyUsage
 	if ku == 0 {
 		ku = x509.KeyUsageDigitalSignature
+	}
+	if o.NoKeyUsage {
+		ku = 0
 	}
 	tmpl := &x509.Certificate{SerialNumber: o.Serial, Subject: pkix.Name{CommonName: o.CN, Organization: []string{"verif"}},
 		NotBefore: time.Now().Add(-time.Hour), NotAfter: time.Now().Add(24 * 30 * time.Hour),
